@@ -40,6 +40,7 @@ RULE = ("prepared screens: S.gen_raw, arity 1-3 (mostly 1-2), 2-8 plates, 4..14 
         "The DESIGN section-7 #1 witness always runs first.  Non-trivial: some sample or non-control (treatment, dose) occurs "
         "only in held-out rows AND at least one reveal/mask/unmask succeeded afterwards on the training half.")
 
+ORACLES = ("ids", "maps", "space", "pred")     # all four always run; a self-test may restrict the tuple
 SIG_IDS = "C03:ids-changed"
 SIG_MAP = "C03:mapping-changed"
 SIG_SPACE = "C03:space-shrank"
@@ -187,7 +188,7 @@ def check_stage(ref, stage, rows, prev_sizes, case, step, res):
     td = [[float(x) for x in r] for r in stage.treatment_doses]
     ti = [[int(x) for x in r] for r in np.asarray(stage.treatment_ids).reshape(len(sn), -1)] if sn else []
     # same name => same id, same id => same name
-    for i in range(len(sn)):
+    for i in range(len(sn) if "ids" in ORACLES else 0):
         want = ref.s_id.get(sn[i])
         if si[i] != want or ref.s_inv.get(si[i]) != sn[i]:
             res.fail("a sample name has a different id than in the prepared screen", c,
@@ -204,7 +205,7 @@ def check_stage(ref, stage, rows, prev_sizes, case, step, res):
                 return True, prev_sizes
     # mappings identical
     got = canon_maps(stage)
-    if got != ref.maps:
+    if got != ref.maps and "maps" in ORACLES:
         k = [a != b for a, b in zip(got, ref.maps)].index(True)
         what = ["treatment_mapping names", "treatment_mapping doses (bit patterns)", "treatment_mapping ids",
                 "sample_mapping names", "sample_mapping ids"][k]
@@ -216,14 +217,14 @@ def check_stage(ref, stage, rows, prev_sizes, case, step, res):
     sizes = (int(sp.n_unique_treatments), int(sp.n_unique_samples))
     max_t = max([x for r in ti for x in r], default=-1)
     max_s = max(si, default=-1)
-    if (sizes[0] < prev_sizes[0] or sizes[1] < prev_sizes[1] or sizes != (ref.n_t, ref.n_s)
-            or max_t >= sizes[0] or max_s >= sizes[1]):
+    if "space" in ORACLES and (sizes[0] < prev_sizes[0] or sizes[1] < prev_sizes[1] or sizes != (ref.n_t, ref.n_s)
+                               or max_t >= sizes[0] or max_s >= sizes[1]):
         res.fail("the embedding sizes implied by a derived screen shrank / do not cover its ids", c,
                  {"step": step, "n_unique_treatments": sizes[0], "n_unique_samples": sizes[1], "max_treatment_id": max_t, "max_sample_id": max_s},
                  {"previous_stage": list(prev_sizes), "prepared": [ref.n_t, ref.n_s]}, signature=SIG_SPACE)
         return True, sizes
     # predictions of one theta on corresponding rows
-    if ref.theta is not None and len(sn) > 0:
+    if ref.theta is not None and len(sn) > 0 and "pred" in ORACLES:
         try:
             v = np.array(ref.theta.predict_viability(stage))
             m = np.array(ref.theta.predict_conditional_mean(stage))
@@ -584,7 +585,7 @@ def run(ctx, res):
                 res.count("hold-out-only.any")
             for side in ("train", "test"):
                 case = dict(base, side=side, ops=[])
-                k = rng.randint(1, max_ops) if side == "train" else rng.randint(1, max(2, max_ops // 2))
+                k = rng.randint(1, max_ops)
                 line, entries, info = run_side(prep, case, tmp, res, gen=rng, n_ops=k)
                 res.evaluations += 1
                 res.count("stages", info["steps"] + 1)
